@@ -371,3 +371,314 @@ Proof.
   destruct (assign (c_src c) (c_tasks c) next) as [[ws es] n']. destruct H as (_ & _ & He & Hn).
   unfold chan_entries. destruct (c_tasks c) as [|t ts] eqn:E; [contradiction|]. split; [exact He|]. rewrite He, map_length. exact Hn.
 Qed.
+
+(* premises of [inv_set_send] for the parts of a sender that an action leaves alone *)
+Lemma keep_flight x T s s' :
+  Inv x -> send_at x T s -> (exists ext, s_hist s' = s_hist s ++ ext) -> s_acked s <= s_acked s' ->
+  s_ackflight s' = s_ackflight s ->
+  forall fl', s_ackflight s' = Some fl' -> forall sr a, In (sr, a) (af_todo fl') -> Good (set_send x T (fun _ => s')) sr T a.
+Proof.
+  intros HI Hs He Ha Hf fl' Hfl sr a Hin. rewrite Hf in Hfl.
+  apply (good_after_set_send x T s s' sr T a Hs He Ha). apply (i_gflight x HI T s fl' Hs Hfl sr a Hin).
+Qed.
+
+Lemma keep_prev x T s s' :
+  Inv x -> send_at x T s -> (exists ext, s_hist s' = s_hist s ++ ext) -> s_acked s <= s_acked s' ->
+  s_prev s' = s_prev s ->
+  forall sr a, In (sr, a) (s_prev s') -> Good (set_send x T (fun _ => s')) sr T a.
+Proof.
+  intros HI Hs He Ha Hp sr a Hin. rewrite Hp in Hin.
+  apply (good_after_set_send x T s s' sr T a Hs He Ha). apply (i_gprev x HI T s Hs sr a Hin).
+Qed.
+
+Lemma upd_const {A} (l : list A) n f a : nth_error l n = Some a -> upd l n f = upd l n (fun _ => f a).
+Proof.
+  revert n. induction l as [|y l IH]; intros [|n] H; cbn in *; try discriminate; [inversion H; reflexivity|f_equal; apply IH; exact H].
+Qed.
+Lemma upd_none {A} (l : list A) n f : nth_error l n = None -> upd l n f = l.
+Proof.
+  revert n. induction l as [|y l IH]; intros [|n] H; cbn in *; try discriminate; try reflexivity. f_equal. apply IH. exact H.
+Qed.
+
+Lemma set_send_const x T f s : send_at x T s -> set_send x T f = set_send x T (fun _ => f s).
+Proof. intros H. unfold set_send. f_equal. apply upd_const. exact H. Qed.
+Lemma set_send_none x T f : nth_error (sends x) T = None -> set_send x T f = x.
+Proof. intros H. destruct x as [rs ss]. unfold set_send. cbn in *. f_equal. apply upd_none. exact H. Qed.
+
+Ltac conn_true Hc := intros Hcf; cbn in Hcf; rewrite Hc in Hcf; discriminate.
+
+Lemma inv_dequeue x T : Inv x -> Inv (fst (apply_act true x (ADequeue T))).
+Proof.
+  intros HI. cbn [apply_act]. destruct (nth_error (sends x) T) as [s|] eqn:Hs; [|exact HI].
+  destruct (s_conn s) eqn:Hc; [|exact HI]. destruct (s_inflight s) eqn:Hf; [exact HI|].
+  destruct (s_chan s) as [|c rest] eqn:Hch; [exact HI|].
+  pose proof (i_ring x HI T s Hs) as Hring.
+  destruct (c_tasks c) as [|t0 ts0] eqn:Ect.
+  - cbn [fst]. apply (inv_set_send x T s); try exact HI; try exact Hs.
+    + unfold L. cbn. rewrite Hch. cbn [flat_map]. unfold chan_entries at 2. rewrite Ect. rewrite <- app_assoc. reflexivity.
+    + cbn. eexists. reflexivity.
+    + cbn. lia.
+    + cbn. intros Hcf. rewrite Hc in Hcf. discriminate.
+    + apply (ring_ok_append (s_set_chan rest s)); [exact Hring|]. cbn. lia.
+    + apply (keep_flight x T s); try assumption; cbn; [eexists; reflexivity|lia|reflexivity].
+    + apply (keep_prev x T s); try assumption; cbn; [eexists; reflexivity|lia|reflexivity].
+  - rewrite <- Ect. pose proof (chan_entries_assign c (s_next s) ltac:(rewrite Ect; discriminate)) as Ha.
+    destruct (assign (c_src c) (c_tasks c) (s_next s)) as [[ws es] n'] eqn:Eas. destruct Ha as [Hes Hn'].
+    cbn [fst]. apply (inv_set_send x T s); try exact HI; try exact Hs.
+    + unfold L. cbn. rewrite Hch. cbn [flat_map]. rewrite Hes, <- app_assoc. reflexivity.
+    + cbn. eexists. reflexivity.
+    + cbn. lia.
+    + cbn. intros Hcf. rewrite Hc in Hcf. discriminate.
+    + apply (ring_ok_append (s_set_chan rest s)); [exact Hring|]. cbn. exact Hn'.
+    + apply (keep_flight x T s); try assumption; cbn; [eexists; reflexivity|lia|reflexivity].
+    + apply (keep_prev x T s); try assumption; cbn; [eexists; reflexivity|lia|reflexivity].
+Qed.
+
+(* an update of one sender that touches none of the fields the invariant reads *)
+Lemma inv_send_irrelevant x T s s' :
+  Inv x -> send_at x T s ->
+  s_conn s' = s_conn s -> s_chan s' = s_chan s -> s_hist s' = s_hist s -> s_acked s' = s_acked s -> s_next s' = s_next s ->
+  s_start s' = s_start s -> s_ring s' = s_ring s -> s_prev s' = s_prev s -> s_ackflight s' = s_ackflight s ->
+  (s_conn s = true \/ s_ackin s' = s_ackin s) ->
+  Inv (set_send x T (fun _ => s')).
+Proof.
+  intros HI Hs Hc Hch Hh Ha Hn Hst Hr Hp Hf Hai.
+  apply (inv_set_send x T s); try assumption.
+  - unfold L. rewrite Hh, Hch. reflexivity.
+  - rewrite Hh. apply hist_ext_refl.
+  - lia.
+  - intros Hcf. rewrite Hc in Hcf. destruct (i_nc x HI T s Hs Hcf) as (H1 & H2 & H3 & H4 & H5 & H6).
+    rewrite Hh, Hch, Hf, Hp, Hr. destruct Hai as [Hai|Hai]; [congruence|rewrite Hai]. repeat split; assumption.
+  - destruct (i_ring x HI T s Hs) as [R1 R2]. unfold ring_ok. rewrite Hn, Hh, Hr, Hst. split; assumption.
+  - apply (keep_flight x T s); try assumption; [rewrite Hh; apply hist_ext_refl|lia].
+  - apply (keep_prev x T s); try assumption; [rewrite Hh; apply hist_ext_refl|lia].
+Qed.
+
+Lemma inv_simple_sender x a :
+  Inv x ->
+  match a with ASend _ | AKeepalive _ | AStall _ | AUnstall _ | AAckIn _ _ => True | _ => False end ->
+  Inv (fst (apply_act true x a)).
+Proof.
+  intros HI Ha. destruct a; try contradiction; cbn [apply_act].
+  - (* ASend *)
+    destruct (nth_error (sends x) T) as [s|] eqn:Hs; [|exact HI].
+    destruct (s_conn s && negb (s_stalled s)) eqn:E; [|exact HI]. destruct (s_inflight s) as [f|] eqn:Hf; [|exact HI].
+    cbn [fst]. apply (inv_send_irrelevant x T s); try exact HI; try exact Hs; destruct (f_keepalive f); try reflexivity; try (right; reflexivity).
+  - (* AKeepalive *)
+    destruct (nth_error (sends x) T) as [s|] eqn:Hs; [|exact HI].
+    destruct (s_conn s) eqn:Hc; [|exact HI]. destruct (s_inflight s) eqn:Hf; [exact HI|].
+    destruct (s_lastwm s >? 0); [|exact HI]. cbn [fst].
+    rewrite (set_send_const x T _ s Hs). apply (inv_send_irrelevant x T s); try exact HI; try exact Hs; try reflexivity. right; reflexivity.
+  - (* AAckIn *)
+    destruct (nth_error (sends x) T) as [s|] eqn:Hs; [|exact HI].
+    destruct (s_conn s) eqn:Hc; [|exact HI]. cbn [fst].
+    rewrite (set_send_const x T _ s Hs). apply (inv_send_irrelevant x T s); try exact HI; try exact Hs; try reflexivity. left. exact Hc.
+  - (* AStall *)
+    destruct (nth_error (sends x) T) as [s|] eqn:Hs.
+    + cbn [fst]. rewrite (set_send_const x T _ s Hs). apply (inv_send_irrelevant x T s); try exact HI; try exact Hs; try reflexivity. right; reflexivity.
+    + cbn [fst]. rewrite (set_send_none x T _ Hs). exact HI.
+  - (* AUnstall *)
+    destruct (nth_error (sends x) T) as [s|] eqn:Hs.
+    + cbn [fst]. rewrite (set_send_const x T _ s Hs). apply (inv_send_irrelevant x T s); try exact HI; try exact Hs; try reflexivity. right; reflexivity.
+    + cbn [fst]. rewrite (set_send_none x T _ Hs). exact HI.
+Qed.
+
+Lemma inv_aggregate x T : Inv x -> Inv (fst (apply_act true x (AAggregate T))).
+Proof.
+  intros HI. cbn [apply_act]. destruct (nth_error (sends x) T) as [s|] eqn:Hs; [|exact HI].
+  destruct (s_conn s) eqn:Hc; [|exact HI]. destruct (s_ackflight s) eqn:Hf; [exact HI|].
+  destruct (s_ackin s) as [|w rest] eqn:Hai; [exact HI|].
+  destruct (aggregate s w) as [acks c] eqn:Eagg. cbn [fst].
+  apply (inv_set_send x T s); try exact HI; try exact Hs.
+  - reflexivity.
+  - cbn. apply hist_ext_refl.
+  - cbn. lia.
+  - cbn. intros Hcf. rewrite Hc in Hcf. discriminate.
+  - exact (i_ring x HI T s Hs).
+  - cbn [s_ackflight s_set_acked s_set_ackflight]. intros fl' Hfl sr a Hin. inversion Hfl; subst fl'; clear Hfl.
+    destruct acks as [|p acks'] eqn:Eacks; cbn [af_todo] in Hin.
+    + apply (good_after_set_send x T s); [exact Hs|cbn; apply hist_ext_refl|cbn; lia|]. apply (i_gprev x HI T s Hs sr a Hin).
+    + apply (aggregate_good x T s w sr a HI Hs); [rewrite Eagg; exact Hin|reflexivity|cbn; lia].
+  - apply (keep_prev x T s); try assumption; cbn; [apply hist_ext_refl|lia|reflexivity].
+Qed.
+
+Lemma inv_discard x T : Inv x -> Inv (fst (apply_act true x (ADiscard T))).
+Proof.
+  intros HI. cbn [apply_act]. destruct (nth_error (sends x) T) as [s|] eqn:Hs; [|exact HI].
+  destruct (s_conn s) eqn:Hc; [|exact HI]. destruct (s_ackflight s) as [fl|] eqn:Hf; [|exact HI].
+  destruct (af_todo fl) eqn:Htodo; [|exact HI]. cbn [fst].
+  apply (inv_set_send x T s); try exact HI; try exact Hs.
+  - reflexivity.
+  - cbn. apply hist_ext_refl.
+  - cbn. lia.
+  - cbn. intros Hcf. rewrite Hc in Hcf. discriminate.
+  - destruct (i_ring x HI T s Hs) as [R1 R2]. unfold ring_ok. cbn. split; [exact R1|].
+    intros Hne. assert (Hr : s_ring s <> []) by (intros E; rewrite E in Hne; rewrite skipn_nil in Hne; contradiction).
+    destruct (R2 Hr) as [R3 R4]. split; [lia|]. rewrite R4 at 1. rewrite skipn_skipn. f_equal. lia.
+  - cbn. intros fl' Hfl. discriminate.
+  - apply (keep_prev x T s); try assumption; cbn; [apply hist_ext_refl|lia|reflexivity].
+Qed.
+
+(* ---------- a step that changes one receiver's queues / map only ---------- *)
+Lemma recv_at_set_recv x sr f sr' r' :
+  recv_at (set_recv x sr f) sr' r' ->
+  (sr = sr' /\ exists r, recv_at x sr r /\ r' = f r) \/ (sr <> sr' /\ recv_at x sr' r').
+Proof.
+  unfold recv_at, set_recv. cbn [recvs]. intros H. apply nth_error_upd_inv in H.
+  destruct H as [[E (a & Ha & Hb)]|[Hne H]]; [left; subst sr'; split; [reflexivity|exists a; auto]|right; auto].
+Qed.
+
+Lemma set_recv_const x sr f r : recv_at x sr r -> set_recv x sr f = set_recv x sr (fun _ => f r).
+Proof. intros H. unfold set_recv. f_equal. apply upd_const. exact H. Qed.
+
+Lemma good_same_rcv x x' sr T v :
+  sends x' = sends x ->
+  (forall r', recv_at x' sr r' -> exists r, recv_at x sr r /\ r_high r = r_high r' /\ r_rcv r = r_rcv r') ->
+  Good x sr T v -> Good x' sr T v.
+Proof.
+  intros Hs Hr HG r' Hr'. destruct (Hr _ Hr') as (r & Hat & Hh & Hrcv). destruct (HG _ Hat) as [Hv Ht].
+  split; [lia|]. intros t Hin Ho Hlt. rewrite <- Hrcv in Hin. destruct (Ht _ Hin Ho Hlt) as (s & Hsat & Hc).
+  exists s. split; [unfold send_at; rewrite Hs; exact Hsat|exact Hc].
+Qed.
+
+Lemma inv_set_recv_light x sr r r' :
+  Inv x -> recv_at x sr r ->
+  r_rcv r' = r_rcv r -> r_high r' = r_high r -> r_lastwm r' = r_lastwm r -> r_pending r' = r_pending r ->
+  chain (r_high r') (r_inq r') ->
+  (forall T v, aget T (r_map r') = Some v -> Good x sr T v) ->
+  (forall T v, In (T, v) (r_ackq r') -> Good x sr T v) ->
+  (forall t, In t (r_rcv r) -> exists v, aget (t_owner t) (r_map r') = Some v) ->
+  Inv (set_recv x sr (fun _ => r')).
+Proof.
+  intros HI Hr Hrcv Hhigh Hlw Hpend Hq Hgm Hga Hreg.
+  set (x' := set_recv x sr (fun _ => r')).
+  assert (Hsends : sends x' = sends x) by reflexivity.
+  assert (Hcase : forall sr0 r0, recv_at x' sr0 r0 -> (sr0 = sr /\ r0 = r') \/ (sr0 <> sr /\ recv_at x sr0 r0)).
+  { intros sr0 r0 H. apply recv_at_set_recv in H. destruct H as [[E (r1 & _ & E2)]|[Hne H]]; [left; auto|right; auto]. }
+  assert (Hgood : forall sr0 T v, Good x sr0 T v -> Good x' sr0 T v).
+  { intros sr0 T v. apply good_same_rcv; [exact Hsends|]. intros r0 H0. destruct (Hcase _ _ H0) as [[-> ->]|[Hne H1]].
+    - exists r. auto.
+    - exists r0. auto. }
+  destruct HI as [Ilw Ircvb Iq Ipend Ip Inc Ibefore Ibnd Iring Igmap Igackq Igflight Igprev Ireg].
+  constructor.
+  - intros sr0 r0 H. destruct (Hcase _ _ H) as [[-> ->]|[Hne H1]]; [rewrite Hlw, Hhigh; apply (Ilw sr r Hr)|apply (Ilw _ _ H1)].
+  - intros sr0 r0 H t Ht. destruct (Hcase _ _ H) as [[-> ->]|[Hne H1]]; [rewrite Hrcv in Ht; rewrite Hhigh; apply (Ircvb sr r Hr t Ht)|apply (Ircvb _ _ H1 t Ht)].
+  - intros sr0 r0 H. destruct (Hcase _ _ H) as [[-> ->]|[Hne H1]]; [exact Hq|apply (Iq _ _ H1)].
+  - intros sr0 r0 H. destruct (Hcase _ _ H) as [[-> ->]|[Hne H1]]; [|apply (Ipend _ _ H1)].
+    unfold pend_ok. rewrite Hpend, Hrcv, Hlw. apply (Ipend sr r Hr).
+  - intros sr0 r0 H t Ht. destruct (Hcase _ _ H) as [[-> ->]|[Hne H1]].
+    + rewrite Hrcv in Ht. unfold pend. rewrite Hpend. apply (Ip sr r Hr t Ht).
+    + apply (Ip _ _ H1 t Ht).
+  - intros T s H. apply (Inc T s H).
+  - intros sr0 r0 T s H Hs. destruct (Hcase _ _ H) as [[-> ->]|[Hne H1]].
+    + rewrite Hrcv. apply (Ibefore sr r T s Hr Hs).
+    + apply (Ibefore _ _ T s H1 Hs).
+  - intros sr0 r0 T s H Hs. destruct (Hcase _ _ H) as [[-> ->]|[Hne H1]].
+    + rewrite Hhigh. apply (Ibnd sr r T s Hr Hs).
+    + apply (Ibnd _ _ T s H1 Hs).
+  - intros T s H. apply (Iring T s H).
+  - intros sr0 r0 H T v Hg. apply Hgood. destruct (Hcase _ _ H) as [[-> ->]|[Hne H1]]; [apply (Hgm T v Hg)|apply (Igmap _ _ H1 T v Hg)].
+  - intros sr0 r0 H T v Hin. apply Hgood. destruct (Hcase _ _ H) as [[-> ->]|[Hne H1]]; [apply (Hga T v Hin)|apply (Igackq _ _ H1 T v Hin)].
+  - intros T s fl H Hf sr0 a Hin. apply Hgood. apply (Igflight T s fl H Hf sr0 a Hin).
+  - intros T s H sr0 a Hin. apply Hgood. apply (Igprev T s H sr0 a Hin).
+  - intros sr0 r0 H t Ht. destruct (Hcase _ _ H) as [[-> ->]|[Hne H1]]; [rewrite Hrcv in Ht; apply (Hreg t Ht)|apply (Ireg _ _ H1 t Ht)].
+Qed.
+
+Lemma set_recv_none x sr f : nth_error (recvs x) sr = None -> set_recv x sr f = x.
+Proof. intros H. destruct x as [rs ss]. unfold set_recv. cbn in *. f_equal. apply upd_none. exact H. Qed.
+
+(* ---------- well-formed environment actions ---------- *)
+Fixpoint lastpush_from (lo : Z) (q : list (list task * Z)) : Z :=
+  match q with [] => lo | (_, h) :: rest => lastpush_from h rest end.
+Definition lastpush (r : recv) : Z := lastpush_from (r_high r) (r_inq r).
+
+(* sources follow Temporal's sender contract: ids increase across batches, a batch's watermark is above its ids and
+   watermarks never go back; a target is connected once (re-connections are stream failures: property C04) *)
+Definition wf_act (x : st) (a : act) : Prop :=
+  match a with
+  | APush sr ts high =>
+      forall r, recv_at x sr r -> incr (lastpush r) ts /\ (forall t, In t ts -> t_id t < high) /\ lastpush r <= high
+  | AConnect T => forall s, send_at x T s -> s_conn s = false
+  | ABreak _ | ARestart _ => False
+  | _ => True
+  end.
+
+Lemma chain_app q : forall lo ts h,
+  chain lo q -> incr (lastpush_from lo q) ts -> (forall t, In t ts -> t_id t < h) -> lastpush_from lo q <= h ->
+  chain lo (q ++ [(ts, h)]).
+Proof.
+  induction q as [|[ts0 h0] q IH]; intros lo ts h Hc Hi Hlt Hle; cbn [app chain lastpush_from] in *.
+  - repeat split; assumption.
+  - destruct Hc as (H1 & H2 & H3 & H4). repeat split; try assumption. apply IH; assumption.
+Qed.
+
+Lemma inv_push x sr ts high : Inv x -> wf_act x (APush sr ts high) -> Inv (fst (apply_act true x (APush sr ts high))).
+Proof.
+  intros HI Hwf. cbn [apply_act fst]. destruct (nth_error (recvs x) sr) as [r|] eqn:Hr; [|rewrite set_recv_none by exact Hr; exact HI].
+  rewrite (set_recv_const x sr _ r Hr). destruct (Hwf r Hr) as (W1 & W2 & W3).
+  apply (inv_set_recv_light x sr r); try exact HI; try exact Hr; try reflexivity.
+  - cbn. apply chain_app; [apply (i_q x HI sr r Hr)|exact W1|exact W2|exact W3].
+  - cbn. apply (i_gmap x HI sr r Hr).
+  - cbn. apply (i_gackq x HI sr r Hr).
+  - cbn. apply (i_reg x HI sr r Hr).
+Qed.
+
+Lemma inv_procack x sr : Inv x -> Inv (fst (apply_act true x (AProcAck sr))).
+Proof.
+  intros HI. cbn [apply_act]. destruct (nth_error (recvs x) sr) as [r|] eqn:Hr; [|exact HI].
+  destruct (r_ackq r) as [|[T v] q] eqn:Hq; [exact HI|].
+  pose proof (process_ack_spec sr T v (r_set_ackq q r)) as Hspec.
+  destruct (process_ack sr T v (r_set_ackq q r)) as [r' o]. cbn [fst].
+  destruct Hspec as (_ & Hmap & Hhigh & Hrcv & Hpend & Hinq & Hackq & Hlw). cbn in Hmap, Hhigh, Hrcv, Hpend, Hinq, Hackq, Hlw.
+  apply (inv_set_recv_light x sr r); try exact HI; try exact Hr; try assumption.
+  - rewrite Hhigh, Hinq. apply (i_q x HI sr r Hr).
+  - intros T' v' Hg. rewrite Hmap, aget_aset in Hg. destruct (Nat.eqb T' T) eqn:E.
+    + apply Nat.eqb_eq in E. subst T'. inversion Hg; subst v'. apply (i_gackq x HI sr r Hr T v). rewrite Hq. left. reflexivity.
+    + apply (i_gmap x HI sr r Hr T' v' Hg).
+  - intros T' v' Hin. rewrite Hackq in Hin. apply (i_gackq x HI sr r Hr T' v'). rewrite Hq. right. exact Hin.
+  - intros t Ht. rewrite Hmap, aget_aset. destruct (Nat.eqb (t_owner t) T); [eexists; reflexivity|apply (i_reg x HI sr r Hr t Ht)].
+Qed.
+
+Lemma inv_deliver x T : Inv x -> Inv (fst (apply_act true x (ADeliver T))).
+Proof.
+  intros HI. cbn [apply_act]. destruct (nth_error (sends x) T) as [s|] eqn:Hs; [|exact HI].
+  destruct (s_conn s) eqn:Hc; [|exact HI]. destruct (s_ackflight s) as [fl|] eqn:Hf; [|exact HI].
+  destruct (af_todo fl) as [|[sr a] rest] eqn:Htodo; [exact HI|].
+  destruct (nth_error (recvs x) sr) as [r|] eqn:Hr; [|exact HI].
+  destruct (Nat.ltb (length (r_ackq r)) chan_cap); [|exact HI]. cbn [fst].
+  set (s1 := s_set_ackflight (Some {| af_todo := rest; af_count := af_count fl; af_new := af_new fl |}) s).
+  set (s2 := if af_new fl then s_set_prev (aset sr a (s_prev s1)) s1 else s1).
+  (* first the receiver's queue, then the sender's bookkeeping *)
+  set (r1 := r_set_ackq (r_ackq r ++ [(T, a)]) r).
+  assert (Hx1 : Inv (set_recv x sr (fun _ => r1))).
+  { apply (inv_set_recv_light x sr r); try exact HI; try exact Hr; try reflexivity.
+    - cbn. apply (i_q x HI sr r Hr).
+    - cbn. apply (i_gmap x HI sr r Hr).
+    - cbn. intros T' v' Hin. apply in_app_or in Hin. destruct Hin as [Hin|[E|[]]]; [apply (i_gackq x HI sr r Hr T' v' Hin)|].
+      inversion E; subst T' v'. apply (i_gflight x HI T s fl Hs Hf sr a). rewrite Htodo. left. reflexivity.
+    - cbn. apply (i_reg x HI sr r Hr). }
+  assert (Heq : {| recvs := upd (recvs x) sr (fun r0 => r_set_ackq (r_ackq r0 ++ [(T, a)]) r0); sends := upd (sends x) T (fun _ => s2) |}
+                = set_send (set_recv x sr (fun _ => r1)) T (fun _ => s2)).
+  { unfold set_send, set_recv. cbn [recvs sends]. f_equal.
+    exact (upd_const (recvs x) sr (fun r0 => r_set_ackq (r_ackq r0 ++ [(T, a)]) r0) r Hr). }
+  rewrite Heq. set (x1 := set_recv x sr (fun _ => r1)) in *.
+  assert (Hs1 : send_at x1 T s) by exact Hs.
+  assert (Hh2 : s_hist s2 = s_hist s) by (unfold s2, s1; destruct (af_new fl); reflexivity).
+  assert (Ha2 : s_acked s2 = s_acked s) by (unfold s2, s1; destruct (af_new fl); reflexivity).
+  apply (inv_set_send x1 T s); try exact Hx1; try exact Hs1.
+  - unfold L. rewrite Hh2. unfold s2, s1. destruct (af_new fl); reflexivity.
+  - rewrite Hh2. apply hist_ext_refl.
+  - lia.
+  - intros Hcf. unfold s2, s1 in Hcf. destruct (af_new fl); cbn in Hcf; rewrite Hc in Hcf; discriminate.
+  - destruct (i_ring x HI T s Hs) as [R1 R2]. unfold ring_ok, s2, s1. destruct (af_new fl); cbn; split; assumption.
+  - intros fl' Hfl sr0 a0 Hin.
+    assert (Hfl2 : fl' = {| af_todo := rest; af_count := af_count fl; af_new := af_new fl |}) by (unfold s2, s1 in Hfl; destruct (af_new fl); cbn in Hfl; inversion Hfl; reflexivity).
+    subst fl'. cbn in Hin. apply (good_after_set_send x1 T s); [exact Hs1|rewrite Hh2; apply hist_ext_refl|lia|].
+    apply (i_gflight x1 Hx1 T s fl Hs1 Hf sr0 a0). rewrite Htodo. right. exact Hin.
+  - intros sr0 a0 Hin. apply (good_after_set_send x1 T s); [exact Hs1|rewrite Hh2; apply hist_ext_refl|lia|].
+    unfold s2, s1 in Hin. destruct (af_new fl); cbn in Hin.
+    + destruct (aset_In _ _ _ _ _ Hin) as [[-> ->]|Hold].
+      * apply (i_gflight x1 Hx1 T s fl Hs1 Hf sr a). rewrite Htodo. left. reflexivity.
+      * apply (i_gprev x1 Hx1 T s Hs1 sr0 a0 Hold).
+    + apply (i_gprev x1 Hx1 T s Hs1 sr0 a0 Hin).
+Qed.
